@@ -241,7 +241,9 @@ func (vc *VC) callFunc(st *State, call *ast.CallExpr, callee *types.Func, sig *t
 	full := origin.FullName()
 	// 1. contract
 	if c := vc.w.contractFor(origin); c != nil && !c.Inline {
-		return vc.applyContract(st, call, c, origin, sig, recv, args)
+		rs := vc.applyContract(st, call, c, origin, sig, recv, args)
+		vc.havocCaptured(st, args)
+		return rs
 	}
 	// 2. intrinsics
 	if rs, ok := vc.intrinsic(st, call, full, sig, recv, args); ok {
@@ -255,6 +257,7 @@ func (vc *VC) callFunc(st *State, call *ast.CallExpr, callee *types.Func, sig *t
 		vc.depsUsed["no-heap-effect library call (result unconstrained): "+full] = true
 		rs := vc.havocResults(st, origin.Name(), sig)
 		vc.havocAlloc(st)
+		vc.havocCaptured(st, args)
 		return rs
 	}
 	// 3. interface method without contract: unknown implementation
@@ -264,6 +267,7 @@ func (vc *VC) callFunc(st *State, call *ast.CallExpr, callee *types.Func, sig *t
 		}
 		vc.uncontracted[full+" (interface method)"] = true
 		vc.havocAllHeap(st)
+		vc.havocCaptured(st, args)
 		return vc.havocResults(st, origin.Name(), sig)
 	}
 	// 4. inline same-module functions
@@ -275,7 +279,48 @@ func (vc *VC) callFunc(st *State, call *ast.CallExpr, callee *types.Func, sig *t
 	// 5. unknown: havoc everything
 	vc.uncontracted[full] = true
 	vc.havocAllHeap(st)
+	vc.havocCaptured(st, args)
 	return vc.havocResults(st, origin.Name(), sig)
+}
+
+// havocCaptured: a callee that received a closure may have run it: the closure-captured locals the closure assigns
+// (boxed in `local:` cells) have arbitrary values afterwards.
+func (vc *VC) havocCaptured(st *State, args []*Value) {
+	for _, a := range args {
+		if a == nil || a.Fn == nil || a.Fn.Lit == nil {
+			continue
+		}
+		info := vc.curInfo
+		if a.Fn.Pkg != nil {
+			info = a.Fn.Pkg.P.TypesInfo
+		}
+		ast.Inspect(a.Fn.Lit.Body, func(n ast.Node) bool {
+			var lhs []ast.Expr
+			switch x := n.(type) {
+			case *ast.AssignStmt:
+				lhs = x.Lhs
+			case *ast.IncDecStmt:
+				lhs = []ast.Expr{x.X}
+			}
+			for _, l := range lhs {
+				for {
+					if se, ok := l.(*ast.SelectorExpr); ok && !isPointer(info.TypeOf(se.X)) {
+						l = se.X
+						continue
+					}
+					break
+				}
+				if id, ok := l.(*ast.Ident); ok {
+					if v, ok := info.ObjectOf(id).(*types.Var); ok && vc.boxed[v] && !vc.boxedAddr[v] {
+						if ref := st.env[v]; ref != nil {
+							vc.store(st, vc.boxLoc(v, ref.Term), vc.freshValue(st, v.Name(), v.Type()))
+						}
+					}
+				}
+			}
+			return true
+		})
+	}
 }
 
 func (vc *VC) havocAlloc(st *State) {
@@ -599,7 +644,7 @@ func (vc *VC) bindParam(st *State, obj types.Object, v *Value) {
 	if vr, _ := obj.(*types.Var); vr != nil && vc.boxed[vr] {
 		ref := vc.allocRef(st, "cell_"+obj.Name())
 		st.env[obj] = intV(ref, nil)
-		vc.store(st, vc.derefLoc(ref, vr.Type()), v)
+		vc.store(st, vc.boxLoc(vr, ref), v)
 		return
 	}
 	st.env[obj] = v
@@ -663,6 +708,7 @@ func (vc *VC) scanBoxed(body ast.Node, info *types.Info) {
 				if id, ok := ast.Unparen(x.X).(*ast.Ident); ok {
 					if v, ok := info.ObjectOf(id).(*types.Var); ok && !vc.isGlobal(v) {
 						vc.boxed[v] = true
+						vc.boxedAddr[v] = true
 					}
 				}
 			}
@@ -686,6 +732,7 @@ func (vc *VC) scanBoxed(body ast.Node, info *types.Info) {
 							if id, ok := ast.Unparen(x.X).(*ast.Ident); ok {
 								if v, ok := info.ObjectOf(id).(*types.Var); ok && !vc.isGlobal(v) && !isPointer(v.Type()) && !isInterface(v.Type()) {
 									vc.boxed[v] = true
+									vc.boxedAddr[v] = true
 								}
 							}
 						}
